@@ -11,6 +11,7 @@ import numpy
 
 from mpv import arr, cmdgen
 
+ANCHORS = ['mpilot/utils.py:insure_fuzzy', 'mpilot/libraries/eems/basic.py:Sum.execute', 'mpilot/libraries/eems/basic.py:Minimum.execute', 'mpilot/libraries/eems/fuzzy.py:FuzzyOr.execute', 'mpilot/libraries/eems/fuzzy.py:CvtFromFuzzy.execute', 'mpilot/libraries/eems/netcdf/io.py:EEMSWrite.execute', 'mpilot/libraries/eems/csv/io.py:EEMSWrite.execute', 'mpilot/libraries/eems/basic.py:PrintVars.execute']   # repository functions the workload must enter (reported as anchors_reached / anchors_missed)
 LEVEL = "exploration"
 RULE = ("random consumer sequences (length 1-10, repeated and reordered, producers shared between lists) over pools of finished "
         "results; every built-in command of the CSV and NetCDF library sets is a consumer; distinct by (library set, rank, sequence "
